@@ -31,6 +31,8 @@ type Oracle struct {
 	acceptedLaunch int
 	// C04 / C05 view specification
 	view map[uint64]*specView
+	// C12: what each host said about its persisted logs in its last report that carried the list
+	hostLog map[string]map[[2]uint64]int
 }
 
 type specView struct {
@@ -42,7 +44,7 @@ type specView struct {
 
 func NewOracle(run *hx.Run, seq int) *Oracle {
 	return &Oracle{Run: run, Seq: seq, TTL: settings.Soft.NodeHostTTL, LDT: settings.LaunchDeadlineTick,
-		pending: map[string][]string{}, out: map[string][]string{}, addrs: map[string]struct{}{}, view: map[uint64]*specView{}}
+		pending: map[string][]string{}, out: map[string][]string{}, addrs: map[string]struct{}{}, view: map[uint64]*specView{}, hostLog: map[string]map[[2]uint64]int{}}
 }
 
 func (o *Oracle) fail(prop, clause, sig, what string, idx int) {
@@ -349,6 +351,33 @@ func (o *Oracle) report(idx int, op Op, res string, pre, post *Dump) {
 		delete(o.out, a)
 		if res != "0" {
 			o.fail("C10", "report_result", "report-count", fmt.Sprintf("report answered %s, nothing pending", res), idx)
+		}
+	}
+	// C12 "data known to exist": the log records Drummer keeps for a host are exactly what the host listed in its last
+	// report that carried the list (an empty list means the logs are gone); reports without the list change nothing
+	if op.PlogInc || o.hostLog[a] == nil {
+		m := map[[2]uint64]int{}
+		if op.PlogInc {
+			for _, p := range op.Plog {
+				m[[2]uint64{p[0], p[1]}]++
+			}
+		}
+		o.hostLog[a] = m
+	}
+	if h := post.NodeHostImage.Nodehosts[a]; h != nil {
+		got := map[[2]uint64]int{}
+		for _, e := range h.PersistentLog {
+			got[[2]uint64{e.ShardId, e.ReplicaId}]++
+		}
+		same := len(got) == len(o.hostLog[a])
+		for k, n := range got {
+			if o.hostLog[a][k] != n {
+				same = false
+			}
+		}
+		o.Run.Count("c12:host_log_record_checked")
+		if !same {
+			o.fail("C12", "restore_needs_log", "host-log-record", fmt.Sprintf("after the report of %s Drummer's record of its persisted logs is %v, the host's last list was %v", a, got, o.hostLog[a]), idx)
 		}
 	}
 	// C04: the view is the membership of the complete entry with the highest version so far
